@@ -206,7 +206,7 @@ func runC17(c *fw.Ctx) {
 		engines []string
 		depth   int
 	}
-	plans := []plan{{[]string{"btree", "mem"}, 6}}
+	plans := []plan{{[]string{"btree", "mem"}, 5}}
 	if c.Thorough() {
 		plans = []plan{{[]string{"btree", "mem"}, 7}, {[]string{"btree", "mem", "disk"}, 5}}
 	}
